@@ -475,6 +475,8 @@ class UBCalculation:
                     "Invalid number of input parameters to set unit lattice."
                 )
             fullform: Tuple[Any, ...] = (system,) + shortform
+            if system == "Hexagonal":
+                fullform = (system, sf[0], sf[2])
             self.crystal = Crystal(name, *fullform)
         else:
             if not isinstance(shortform[0], str):
